@@ -13,4 +13,5 @@ def check(A):
         C.read_loop_rules(A, cf, 'C09', timeout_rule='C09')
         C.send_packet_rule(A, cf, 'C09')
         C.connect_rules(A, cf, 'C09')
+        C.send_request_rule(A, cf, 'C09')
     C.url_rule(A, 'C09')
